@@ -20,9 +20,17 @@ def action(name):
     return deco
 
 
-def perform(act: str, params: dict):
+def perform(act: str, params: dict, state: dict = None):
     """Return the callable taking the operand objects."""
-    return ACTIONS[act](params)
+    fn = ACTIONS[act]
+    if getattr(fn, "_wants_state", False):
+        return fn(params, state if state is not None else {"cms": []})
+    return fn(params)
+
+
+def stateful(fn):
+    fn._wants_state = True
+    return fn
 
 
 # ------------------------------------------------------------ rebuilding inputs
@@ -72,3 +80,89 @@ def _unary(p):
     if sp == "operator":
         return _OP_UN[op]
     return getattr(numpy if sp == "numpy" else numpoly, _NP_UN[op])
+
+
+# ----------------------------------------------------------------- C14 options
+def _norm_opts(o):
+    return {k: (v if isinstance(v, (bool, str)) else repr(v)) for k, v in sorted(o.items())}
+
+
+def _kwargs(p):
+    kw = dict(p.get("kw", {}))
+    for b in p.get("bad", []):
+        kw[b] = True
+    return kw
+
+
+@action("set_options")
+def _set_options(p):
+    import numpoly
+    return lambda: numpoly.set_options(**_kwargs(p))
+
+
+@action("enter")
+@stateful
+def _enter(p, state):
+    import numpoly
+
+    def run():
+        cm = numpoly.global_options(**_kwargs(p))
+        cm.__enter__()
+        state["cms"].append(cm)
+    return run
+
+
+@action("exit")
+@stateful
+def _exit(p, state):
+    def run():
+        cm = state["cms"].pop()
+        cm.__exit__(None, None, None)
+    return run
+
+
+@action("exit_exc")
+@stateful
+def _exit_exc(p, state):
+    import builtins
+
+    def run():
+        cm = state["cms"].pop()
+        exc_type = getattr(builtins, p["thrown"])
+        try:
+            raise exc_type("raised inside the with block")
+        except exc_type as exc:
+            if not cm.__exit__(type(exc), exc, exc.__traceback__):
+                raise
+    return run
+
+
+@action("get_mutate")
+def _get_mutate(p):
+    import numpoly
+    from .record import Extra
+
+    def run():
+        got = numpoly.get_options()
+        seen = _norm_opts(got)
+        for k in list(got):
+            got[k] = "junk"
+        got["extra"] = 1
+        if p.get("clear"):
+            got.clear()
+        return Extra(None, seen=seen)
+    return run
+
+
+@action("get_defaults")
+def _get_defaults(p):
+    import numpoly
+    from .record import Extra
+
+    def run():
+        got = numpoly.get_options(defaults=True)
+        seen = _norm_opts(got)
+        for k in list(got):
+            got[k] = "junk"
+        return Extra(None, seen=seen)
+    return run
